@@ -113,7 +113,15 @@ enum Ret {
     Panic(String),
 }
 
-type Job = Box<dyn FnOnce(&CacheD<u64, u64>) -> Ret + Send>;
+type JobFn = Box<dyn FnOnce(&CacheD<u64, u64>) -> Ret + Send>;
+
+/// what a client thread is asked to do: an API call, or keep / drop a `get_ref` reference guard (which keeps the store
+/// shard of its key read-locked, as a caller of the real API can)
+enum Job {
+    Call(JobFn),
+    HoldRef(u64),
+    ReleaseRef,
+}
 
 struct Client {
     tx: mpsc::Sender<Option<Job>>,
@@ -127,7 +135,7 @@ fn dur_from_ns(ns: u128) -> Duration {
 
 fn parse_opt_u128(s: &str) -> Option<u128> { if s == "-" { None } else { Some(s.parse().unwrap()) } }
 
-fn build_job(parts: &[&str]) -> Job {
+fn build_job(parts: &[&str]) -> JobFn {
     let op = parts[0].to_string();
     let args: Vec<String> = parts[1..].iter().map(|s| s.to_string()).collect();
     Box::new(move |cache: &CacheD<u64, u64>| {
@@ -201,8 +209,19 @@ fn spawn_client(tid: usize, ctl: Arc<Controller>, cache: Arc<CacheD<u64, u64>>) 
     let results_clone = results.clone();
     let handle = thread::spawn(move || {
         ctl.register_client(tid);
+        let cache_ref: &CacheD<u64, u64> = &cache;
+        let mut held = None;
         while let Ok(Some(job)) = rx.recv() {
-            let outcome = panic::catch_unwind(AssertUnwindSafe(|| job(&cache)));
+            let outcome = panic::catch_unwind(AssertUnwindSafe(|| match job {
+                Job::Call(f) => f(cache_ref),
+                Job::HoldRef(key) => {
+                    let guard = cache_ref.get_ref(&key);
+                    let ret = Ret::Ints(guard.as_ref().map(|kv| vec![*kv.value().value_ref() as i128, *kv.key() as i128]).unwrap_or_default());
+                    held = guard;
+                    ret
+                }
+                Job::ReleaseRef => { held = None; Ret::Ints(vec![]) }
+            }));
             let ret = match outcome {
                 Ok(ret) => ret,
                 Err(payload) => {
@@ -274,6 +293,7 @@ struct Case {
     acks: Vec<Arc<CommandAcknowledgement>>,
     consumed: Vec<usize>,
     index: usize,
+    guards_held: usize,
 }
 
 impl Case {
@@ -305,12 +325,13 @@ impl Case {
         }
         let consumed = vec![0; cfg.clients];
         let _ = ctl.take_oracle();
-        Case { name: name.to_string(), cfg, ctl, cache, clock, clients, acks: Vec::new(), consumed, index: 0 }
+        Case { name: name.to_string(), cfg, ctl, cache, clock, clients, acks: Vec::new(), consumed, index: 0, guards_held: 0 }
     }
 
     fn collect_client(&mut self, tid: usize) -> J {
         // the client is Idle (finished), blocked, or still running (timeout)
-        let state = self.ctl.wait_client(tid, STEP_TIMEOUT);
+        // while some client keeps a reference guard a call may legitimately block on that shard: do not wait long
+        let state = self.ctl.wait_client(tid, if self.guards_held > 0 { Duration::from_millis(250) } else { STEP_TIMEOUT });
         match state {
             ClientState::Idle => {
                 let mut results = self.clients[tid].results.lock().unwrap();
@@ -363,6 +384,7 @@ impl Case {
     fn event(&mut self, parts: &[&str]) {
         let mut skipped = false;
         let mut ret = J::A(vec![]);
+        let mut unblocked: Vec<J> = Vec::new();
         match parts[0] {
             "call" => {
                 let tid: usize = parts[1].parse().unwrap();
@@ -370,8 +392,26 @@ impl Case {
                     skipped = true;
                 } else {
                     self.ctl.set_client_state(tid, ClientState::Running);
-                    self.clients[tid].tx.send(Some(build_job(&parts[2..]))).unwrap();
+                    let job = match parts[2] {
+                        "hold_ref" => { self.guards_held += 1; Job::HoldRef(parts[3].parse().unwrap()) }
+                        "release_ref" => Job::ReleaseRef,
+                        _ => Job::Call(build_job(&parts[2..])),
+                    };
+                    let releasing = parts[2] == "release_ref";
+                    self.clients[tid].tx.send(Some(job)).unwrap();
                     ret = self.collect_client(tid);
+                    if releasing && self.guards_held > 0 {
+                        self.guards_held -= 1;
+                        // calls that were blocked on the shard proceed now: let them finish before the state is dumped
+                        if self.guards_held == 0 {
+                            for other in 0..self.cfg.clients {
+                                if other != tid && self.ctl.client_state(other) == ClientState::Running {
+                                    let r = self.collect_client(other);
+                                    unblocked.push(J::A(vec![J::I(other as i128), r]));
+                                }
+                            }
+                        }
+                    }
                 }
             }
             "run" => {
@@ -386,6 +426,8 @@ impl Case {
                             ret = self.collect_client(tid);
                         }
                     }
+                    // a call that was still blocked (on a shard kept locked by a reference guard) when we last looked
+                    ClientState::Running => { ret = self.collect_client(tid); }
                     _ => skipped = true,
                 }
             }
@@ -435,6 +477,7 @@ impl Case {
             ("ev", J::S(parts.join(" "))),
             ("skipped", J::Bool(skipped)),
             ("ret", ret),
+            ("unblocked", J::A(unblocked)),
             ("oracle", oracle_json(self.ctl.take_oracle())),
             ("now", J::I(self.clock.load(Ordering::SeqCst) as i128)),
             ("acks", J::A(acks)),
